@@ -301,6 +301,8 @@ func runC10(o *Out, r *rand.Rand) {
 // dial 2 / dial 3 makes the corresponding dispatch fail to start.  Completions are gated.
 func c10Backup(o *Out, r *rand.Rand) {
 	outs := []fakeOutcome{foOK, foSvcErr, foLost}
+	c10BackupDeadline(o, foOK)
+	c10BackupDeadline(o, foSvcErr)
 	for _, go1 := range []bool{true, false} {
 		for _, go2 := range []bool{true, false} {
 			for _, o1 := range outs {
@@ -311,6 +313,63 @@ func c10Backup(o *Out, r *rand.Rand) {
 				}
 			}
 		}
+	}
+}
+
+// c10BackupDeadline: the caller's context has a deadline shorter than twice the backup latency;
+// the first request is answered after more than half of the remaining time but BEFORE the backup
+// latency has passed: exactly one request must have been delivered (the second is sent only
+// after the backup latency has passed with the first still unanswered).
+func c10BackupDeadline(o *Out, o1 fakeOutcome) {
+	g1 := make(chan struct{})
+	g2 := make(chan struct{})
+	close(g2)
+	sc := &fakeScenario{dials: []bool{true, true, true, false, false},
+		perDial: map[int]fakeOutcome{2: o1, 3: foOK}, gatesByDial: map[int]chan struct{}{2: g1, 3: g2}}
+	setScenario(sc)
+	var pairs []*client.KVPair
+	for i := 0; i < 3; i++ {
+		pairs = append(pairs, &client.KVPair{Key: fmt.Sprintf("fake@s%d", i)})
+	}
+	d, _ := client.NewMultipleServersDiscovery(pairs)
+	opt := client.DefaultOption
+	opt.Retries = 0
+	opt.BackupLatency = 300 * time.Millisecond
+	xc := client.NewXClient("Svc", client.Failbackup, client.RoundRobin, d, opt)
+	defer xc.Close()
+	ctx, cancel := context.WithTimeout(context.Background(), 420*time.Millisecond)
+	defer cancel()
+	reply := &fakeReply{Delivery: -1}
+	resCh := make(chan error, 1)
+	t0 := time.Now()
+	go func() { resCh <- xc.Call(ctx, "M", 1, reply) }()
+	time.Sleep(250 * time.Millisecond)
+	late := time.Since(t0) > 290*time.Millisecond // a stalled machine: not judged
+	close(g1)
+	var err error
+	select {
+	case err = <-resCh:
+	case <-time.After(2 * time.Second):
+		o.Violate("c10.backup.hang", "Failbackup call with a deadline did not return", nil)
+		return
+	}
+	sc.mu.Lock()
+	nd := len(sc.deliveries)
+	sc.mu.Unlock()
+	res := "err"
+	if err == nil {
+		res = "ok"
+	}
+	line := fmt.Sprintf("fb 1 1 %c %c r1,t,r2", outcomeLetters[o1], outcomeLetters[foOK])
+	rp := map[string]any{"case": line, "deliveries": nd, "err": classifyErr(err), "backup_latency_ms": 300, "context_deadline_ms": 420, "first_reply_at_ms": 250}
+	o.Count("backup.deadline-cases")
+	if late {
+		o.Note("backup deadline case: the machine stalled (%v), not judged", time.Since(t0))
+		return
+	}
+	o.SpecCase(line, fmt.Sprintf("%s n=%d", res, nd), true)
+	if nd > 1 {
+		o.Violate("c10.backup.early-second", "the backup request was sent before the backup latency had passed (the caller's deadline was shorter than twice the latency)", rp)
 	}
 }
 
